@@ -672,7 +672,7 @@ def replay_decompose(ctx, hists, quick):
                   for c in (True, False) for mr in (True, False)
                   for rg, mb in (('full', 8), ('covered', 0), ('covered', 1), ('partial', 1))
                   for qq in (((0, 0), (1, 0), (0, 1), (2, 1)) if c else ((0, 0),)) for ue in (False, True)]
-        take = rng.sample(qr_all, 4 if quick else 12)
+        take = rng.sample(qr_all, 4 if quick else 8)
         plans += [('decompose_theta_qr_based', p) for p in take]
         for fn, p in plans:
             try:
@@ -886,11 +886,11 @@ def check(ctx):
                                                     **option_sets('abs', (3, 2, 3, 2, 3), rng))))
     else:
         stages.append(('enum-abs', base_consts(Vals={0, 1, 2, 3, 4, 6, 8}, MaxLen=5, Modes={'abs'},
-                                               **option_sets('abs', (5, 4, 4, 4, 4), rng))))
+                                               **option_sets('abs', (4, 3, 4, 4, 4), rng))))
         stages.append(('enum-rel', base_consts(Vals={0, 1, 2, 3, 4, 6}, MaxLen=5, Modes={'rel'},
                                                **option_sets('rel', (4, 3, 4, 3, 4), rng))))
         stages.append(('enum-unsorted', base_consts(Vals={0, 1, 2, 3}, MaxLen=5, SortedOnly=False, Modes={'abs'},
-                                                    **option_sets('abs', (4, 3, 3, 3, 3), rng))))
+                                                    **option_sets('abs', (3, 3, 3, 3, 3), rng))))
     for name, consts in stages:
         if only and name not in only:
             continue
@@ -911,7 +911,7 @@ def check(ctx):
                                  CutOpts={N, (1, 5)}, MaxAcc=2, AlgVals={0, 1, 2}, ThetaIds={1, 3})
         else:
             consts = base_consts(Vals={0, 1, 2}, MaxLen=2, SortedOnly=False, Modes={'rel'}, ChiMaxOpts={N, (1,)},
-                                 DegOpts={N, (101, 100)}, SvdOpts={N, (1, 4)}, CutOpts={N, (1, 5)}, MaxAcc=3,
+                                 DegOpts={N, (101, 100)}, CutOpts={N, (1, 5)}, MaxAcc=3,
                                  AlgVals={0, 1, 2, 3}, ThetaIds={1, 3})
         res, dump, d = mc_stage(ctx, 'algebra+coverage', consts, coverage=True)
         try:
@@ -937,7 +937,7 @@ def check(ctx):
 
     # ---- MC C: decompositions of the catalogue matrices
     if not only or 'decompose' in only:
-        o = option_sets('rel', (3, 2, 3, 2, 3) if quick else (5, 3, 4, 4, 5), random.Random(ctx.seed * 31 + 8))
+        o = option_sets('rel', (3, 2, 3, 2, 3) if quick else (4, 3, 4, 3, 4), random.Random(ctx.seed * 31 + 8))
         consts = base_consts(Modes={'rel'}, ThetaIds=set(range(1, 10)), **o)
         res, dump, d = mc_stage(ctx, 'decompose', consts)
         try:
